@@ -199,6 +199,15 @@ def mapSrc (sd : Side) (f : Nat → Option Id) : Src Consumer where
   dropEv c := sd.dropEv c
   owns := true
 
+/-- a by-value iterator over owned elements (`vec::IntoIter`, `VecDeque::drain`, …) used directly as
+    the source: yields the elements themselves; its destructor drops the ones not yet yielded -/
+def iterSrc : Src Consumer where
+  step c := match c.slots[c.idx]? with
+    | none => .done [] c
+    | some x => .yield [] x { c with idx := c.idx + 1, pos := c.idx + 1 }
+  dropEv c := c.dropEv
+  owns := true
+
 structure Zip2 where
   a : Consumer
   b : Consumer
